@@ -1,5 +1,117 @@
-(* C04 -- stage 1 placeholder; replaced below by the full statements. *)
-From Verif Require Import Lib.Base Lib.Sx Lib.Sched Model.RtmpTx.
+(* C04 -- RTMP request/response matching holds with a concurrent reader and writer.
+   Property theorems only; every proof is `exact <lemma>` or a short composition.
+
+   Model (Model/RtmpTx.v): thread 0 sends the requests [order] through WritePacket, thread 1 reads
+   and decodes responses (ReadMessage; DecodeMessage -> the lookup+delete of parseAMFObject), thread
+   2+k is the peer answering request k -- enabled only after the transport write of k has
+   succeeded, at most once.  The instruction lists of WritePacket and of the three accesses to
+   the transaction table are produced from the skeletons tools/repo2coq/gen_skel.go extracts from
+   rtmp/rtmp.go on every run.  A SCHEDULE is an arbitrary list of thread indices (Lib/Sched.v).
+   A request: (transaction id, command: 1 connect / 2 createStream / 0 expects no response,
+   transport failure).  The log holds (request, Some command it was decoded as | None = the
+   "No matched request" failure) for every response the reader has looked up. *)
+From Coq Require Import String.
+From Verif Require Import Gen.Gen_rtmp.
+From Verif Require Import Lib.Base Lib.Sx Lib.Sched Model.RtmpTx Proofs.RtmpTx.
+Import List ListNotations.
+Open Scope Z_scope.
+
+(* GENERIC.  For any skeleton satisfying the decidable discipline tx_safeb (register before the
+   transport write; remove the entry when the write fails; store, lookup+delete and removal each
+   inside ltransactions.Lock..Unlock), any request sequence whose response-expecting requests
+   carry pairwise different transaction ids, and EVERY interleaving of writer steps, reader steps
+   and peers:
+   - every response the reader has looked up was matched, and decoded as the response type of
+     its own request (no spurious "No matched request", no wrong type);
+   - no request is matched twice;
+   - a matched request had been answered, and an answered request had been handed to the
+     transport successfully;
+   - the table holds exactly the registered requests that were neither matched-and-deleted nor
+     removed after a failed write (nothing leaks, nothing is dropped early). *)
+Theorem c04_generic sk reqs order sched :
+  tx_safeb sk = true ->
+  (forall k k', needs (rq reqs k) = true -> needs (rq reqs k') = true ->
+                q_tid (rq reqs k) = q_tid (rq reqs k') -> k = k') ->
+  NoDup order ->
+  let s := trun sk reqs (tinit reqs [order] 1) sched in
+  (forall k o, In (k, o) (t_log s) -> o = Some (q_name (rq reqs k))) /\
+  NoDup (map fst (t_log s)) /\
+  (forall k, In k (map fst (t_log s)) -> In k (t_answered s)) /\
+  (forall k, In k (t_answered s) -> In k (t_sent s) /\ needs (rq reqs k) = true) /\
+  (forall tid v, tab_get tid (t_tab s) = Some v <->
+     exists k, needs (rq reqs k) = true /\ q_tid (rq reqs k) = tid /\ q_name (rq reqs k) = v /\
+               In k (t_reg s) /\ ~ In k (t_clean s) /\ ~ In k (t_del s)).
+Proof.
+  intros Hs Hd Hn s. pose proof (trun_inv2 sk reqs Hs Hd order sched Hn) as HI. fold s in HI.
+  split; [exact (i_log _ _ HI)|]. split; [exact (i_l _ _ HI)|]. split; [exact (i_la _ _ HI)|].
+  split; [exact (i_ans _ _ HI)|exact (i_tab _ _ HI)].
+Qed.
+
+(* responses in flight and the one the reader holds are answered, unmatched, and pairwise
+   different -- so each of them will be looked up exactly once *)
+Theorem c04_generic_in_flight sk reqs order sched :
+  tx_safeb sk = true ->
+  (forall k k', needs (rq reqs k) = true -> needs (rq reqs k') = true ->
+                q_tid (rq reqs k) = q_tid (rq reqs k') -> k = k') ->
+  NoDup order ->
+  let s := trun sk reqs (tinit reqs [order] 1) sched in
+  NoDup (t_queue s) /\
+  (forall k, In k (t_queue s) -> In k (t_answered s) /\ ~ In k (map fst (t_log s))) /\
+  (forall rpc k found, nth_error (t_ths s) 1 = Some (TReader rpc (Some k) found) -> (1 <= rpc <= 3)%nat ->
+     In k (t_answered s) /\ ~ In k (t_queue s) /\ ~ In k (map fst (t_log s))).
+Proof.
+  intros Hs Hd Hn s. pose proof (trun_inv2 sk reqs Hs Hd order sched Hn) as HI. fold s in HI.
+  split; [exact (i_q _ _ HI)|]. split; [exact (i_qa _ _ HI)|].
+  intros rpc k found E Hr. destruct (i_r _ _ HI) as (rpc' & held & found' & E' & _ & H13 & _).
+  rewrite E in E'. injection E' as <- <- <-. destruct (H13 Hr) as (k0 & Hk & H). injection Hk as <-. exact H.
+Qed.
+
+(* THE CODE IN /repo satisfies the discipline (by computation on the regenerated skeletons; the
+   table is touched nowhere else than in the functions the skeletons come from and in the
+   constructor), hence the statement holds for it. *)
 Theorem c04_repo_discipline : tx_safeb repo_skel = true /\ repo_sites_ok = true.
 Proof. vm_compute. auto. Qed.
+
+Theorem c04_repo reqs order sched :
+  (forall k k', needs (rq reqs k) = true -> needs (rq reqs k') = true ->
+                q_tid (rq reqs k) = q_tid (rq reqs k') -> k = k') ->
+  NoDup order ->
+  let s := trun repo_skel reqs (tinit reqs [order] 1) sched in
+  (forall k o, In (k, o) (t_log s) -> o = Some (q_name (rq reqs k))) /\
+  NoDup (map fst (t_log s)) /\
+  (forall k, In k (map fst (t_log s)) -> In k (t_answered s)) /\
+  (forall k, In k (t_answered s) -> In k (t_sent s) /\ needs (rq reqs k) = true) /\
+  (forall tid v, tab_get tid (t_tab s) = Some v <->
+     exists k, needs (rq reqs k) = true /\ q_tid (rq reqs k) = tid /\ q_name (rq reqs k) = v /\
+               In k (t_reg s) /\ ~ In k (t_clean s) /\ ~ In k (t_del s)).
+Proof. apply c04_generic. vm_compute. reflexivity. Qed.
+
+(* non-vacuity: two requests, the response to the first arrives while the second is being written
+   (between its registration and its transport write); both are matched as their own type and the
+   table ends empty *)
+Example c04_nonvacuous :
+  let reqs := [{| q_tid := 1; q_name := 1; q_fail := false |}; {| q_tid := 2; q_name := 2; q_fail := false |}] in
+  let s := trun repo_skel reqs (tinit reqs [[0; 1]%nat] 1)
+             ([0; 0; 0; 0; 0; 0; 0] ++ [0; 0; 0; 0; 0] ++ [2] ++ [1; 1; 1; 1; 1; 1; 1] ++ [0; 0] ++ [3] ++ [1; 1; 1; 1; 1; 1; 1])%nat in
+  rev (t_log s) = [(0%nat, Some 1); (1%nat, Some 2)] /\ t_tab s = [] /\ t_raced s = false.
+Proof. vm_compute. auto. Qed.
+
+(* THE PINNED SNAPSHOT (defect 7, fixed in /repo by the rtmp builder's commit).  WritePacket wrote
+   the bytes first and registered afterwards.  The predicate rejects that order, and the search
+   computes the schedule  marshal, write | peer answers | reader reads and looks up | register  after
+   which the reader has logged "No matched request". *)
+Theorem c04_old_order_refuted :
+  tx_safeb old_skel = false /\
+  exists sched, find_cex old_skel = Some sched /\
+                exists k, In (k, None) (t_log (trun old_skel cex_reqs (tinit cex_reqs [[0%nat]] 1) sched)).
+Proof.
+  split; [reflexivity|].
+  destruct (find_cex old_skel) as [sched|] eqn:E; [|vm_compute in E; discriminate].
+  exists sched. split; [reflexivity|]. now apply find_cex_sound.
+Qed.
+
+Print Assumptions c04_generic.
+Print Assumptions c04_generic_in_flight.
 Print Assumptions c04_repo_discipline.
+Print Assumptions c04_repo.
+Print Assumptions c04_old_order_refuted.
